@@ -554,7 +554,7 @@ func c02Revoke(htlcShapes int, maxLog int, deep bool) {
 }
 
 func VerifC02Revoke()     { c02Revoke(4, 2, false) }
-func VerifC02RevokeDeep() { c02Revoke(5, 2, true) }
+func VerifC02RevokeDeep() { c02Revoke(5, 3, true) }
 
 // ---------------------------------------------------------------------------
 // ReceiveRevocation
